@@ -451,11 +451,66 @@ func c12Coverage(p *Program, r *Report) {
 		jobs = append(jobs, job{n, rg.Writer, rg.Reader, rg.Site.Pos()})
 	}
 	// structs serialised by helpers
-	for _, h := range []struct{ typ, w, r string }{{"NodeState", "writerWriteNodeStateBody", "readerReadNodeStateBody"}, {"ClusterView", "writeClusterView", "readClusterView"}} {
-		n := p.Named("internal/cluster", h.typ)
-		w, rd := p.Func("internal/cluster", h.w), p.Func("internal/cluster", h.r)
-		if n == nil || w == nil || rd == nil {
-			r.Unresolved("helper-serialised struct " + h.typ)
+	// (exported type names; the helper functions are found by role: the package function taking the codec's Writer and the
+	// struct that reads most of its fields / taking the Reader and returning the struct that sets most of its fields)
+	for _, typ := range []string{"NodeState", "ClusterView"} {
+		n := p.Named("internal/cluster", typ)
+		if n == nil {
+			r.Unresolved("helper-serialised struct " + typ)
+			continue
+		}
+		var w, rd *ssa.Function
+		bw, br := 0, 0
+		cc := p.codec()
+		for _, fn := range p.Mod {
+			if fn.Parent() != nil || fnPkg(fn) != n.Obj().Pkg() || fn.Signature.Recv() != nil || len(fn.Blocks) == 0 {
+				continue
+			}
+			hasW, hasR, hasT := false, false, false
+			for _, prm := range fn.Params {
+				switch namedOf(prm.Type()) {
+				case cc.WriterT:
+					hasW = true
+				case cc.ReaderT:
+					hasR = true
+				case n:
+					hasT = true
+				}
+			}
+			if hasW && hasT {
+				rdF, _ := p.fieldsTouched(fn, n, 0, map[*ssa.Function]bool{})
+				direct := 0
+				for _, b := range fn.Blocks {
+					for _, in := range b.Instrs {
+						if fa, ok := in.(*ssa.FieldAddr); ok {
+							if f := fieldOfAddr(fa); f != nil && ownerName(f) == n.Obj().Name() {
+								direct++
+							}
+						}
+					}
+				}
+				if direct > 0 && len(rdF) > bw {
+					bw, w = len(rdF), fn
+				}
+			}
+			if hasR && fn.Signature.Results().Len() >= 1 && namedOf(fn.Signature.Results().At(0).Type()) == n {
+				_, wrF := p.fieldsTouched(fn, n, 0, map[*ssa.Function]bool{})
+				cnt := len(wrF) + len(litFields(p, fn, n, 0, map[*ssa.Function]bool{}))
+				direct := 0
+				for _, b := range fn.Blocks {
+					for _, in := range b.Instrs {
+						if al, ok := in.(*ssa.Alloc); ok && namedOf(al.Type()) == n {
+							direct++
+						}
+					}
+				}
+				if direct > 0 && cnt > br {
+					br, rd = cnt, fn
+				}
+			}
+		}
+		if w == nil || rd == nil {
+			r.Unresolved("helper-serialised struct " + typ)
 			continue
 		}
 		jobs = append(jobs, job{n, w, rd, w.Pos()})
@@ -653,10 +708,12 @@ func c12Lossy(p *Program, r *Report) {
 					if !ok1 || !ok2 || tb >= fb {
 						continue
 					}
-					fld := p.fieldOfSource(cv.X, 0)
-					if i := strings.Index(fld, "."); i >= 0 {
-						fld = fld[i+1:]
+					if lc, isCall := cv.X.(*ssa.Call); isCall {
+						if b, isB := lc.Call.Value.(*ssa.Builtin); isB && (b.Name() == "len" || b.Name() == "cap") {
+							continue // a length is not a message field (collections are bounded by the frame), whatever it is the length of
+						}
 					}
+					fld := p.fieldOfSource(cv.X, 0)
 					if fld == "" {
 						continue // not a message field (len(x) etc. are bounded by the frame)
 					}
@@ -674,7 +731,8 @@ func c12Lossy(p *Program, r *Report) {
 						continue
 					}
 					n++
-					r.Violate(fmt.Sprintf("%s: %s(%s)", fnName(fn), typeName(cv.Type()), fld), cv.Pos(),
+					// identity = (field, narrower type): the writer function's name is not part of it
+					r.Violate(fmt.Sprintf("writer narrows %s to %s", fld, typeName(cv.Type())), cv.Pos(),
 						fmt.Sprintf("writer narrows field %s from %s to %s: values outside the narrower range do not round-trip", fld, typeName(cv.X.Type()), typeName(cv.Type())))
 				}
 				if c := callOf(in); c != nil && c.StaticCallee() != nil && p.inModule(c.StaticCallee()) {
